@@ -113,6 +113,12 @@ func (e *Encoder) checkEncodeRefMap(v reflect.Value) (int, bool) {
 		return 0, false
 	}
 
+	// so do structs without content, of whatever type: they take an ordinal each and are never referred to
+	if kind == reflect.Struct && reflect.Indirect(v).Type().Size() == 0 {
+		e.refNum++
+		return 0, false
+	}
+
 	key := _refKey{addr: addr, kind: kind}
 	if kind == reflect.Slice {
 		key.length = reflect.Indirect(v).Len()
